@@ -132,6 +132,14 @@ func runCell(w *sched.W, c cell) {
 		_ = os.WriteFile(khFile, nil, 0o600)
 	case "junk":
 		_ = os.WriteFile(khFile, []byte(junkLine+"\n"), 0o600)
+	case "othertype":
+		// the host is listed, but only with a key of another algorithm than the one the server presents
+		ek, eerr := loop.NewECDSAPublicKey()
+		if eerr != nil {
+			w.Violate("c14:harness", eerr.Error(), c.String())
+			return
+		}
+		_ = os.WriteFile(khFile, []byte(srv.KnownHostsLine(ek)+"\n"), 0o600)
 	case "other+junk":
 		_ = os.WriteFile(khFile, []byte(srv.KnownHostsLine(otherPub)+"\n"+junkLine+"\n"), 0o600)
 	}
@@ -233,6 +241,27 @@ func runCell(w *sched.W, c cell) {
 		}
 		return
 	}
+	if r.openErr != nil && c.tr != "system-standin" {
+		// an ordinary retry on the same driver object is judged like the first attempt
+		again := make(chan error, 1)
+		go func() {
+			err := d.Open()
+			if err == nil {
+				_ = d.Close()
+			}
+			again <- err
+		}()
+		select {
+		case err := <-again:
+			if err == nil {
+				w.Violate("c14:connected-on-retry-despite-host-key:"+c.tr+":kh="+c.kh, fmt.Sprintf("%s: the first Open was refused (%v), a second Open on the same driver was established", c, r.openErr), c.String())
+				return
+			}
+		case <-time.After(60 * time.Second):
+			w.Violate("c14:hang", c.String()+": second open did not finish in 60s", c.String())
+			return
+		}
+	}
 	if r.openErr == nil {
 		sig := "c14:connected-despite-host-key:" + c.tr + ":kh=" + c.kh
 		w.Violate(sig, fmt.Sprintf("%s: connection established although the host key is not in the known-hosts file", c), c.String())
@@ -309,7 +338,7 @@ func scenarios(tier string) []sched.Scenario {
 	var out []sched.Scenario
 	for _, tr := range []string{"standard", "system-real", "system-standin"} {
 		for _, strict := range []bool{true, false} {
-			for _, kh := range []string{"has", "other", "empty", "none", "junk", "other+junk"} {
+			for _, kh := range []string{"has", "other", "empty", "none", "junk", "other+junk", "othertype"} {
 				tr, strict, kh := tr, strict, kh
 				out = append(out, sched.Scenario{Name: fmt.Sprintf("%s/strict=%v/kh=%s", tr, strict, kh), Run: func(w *sched.W) {
 					for _, auth := range []string{"password", "key", "both"} {
@@ -410,7 +439,7 @@ func TestCheck(t *testing.T) {
 	sched.Main(t, sched.Check{
 		ID:    "C14",
 		Level: "exploration",
-		Rule:  "exhaustive configuration table: transport {standard (x/crypto/ssh), system with the real /usr/bin/ssh, system with a stand-in ssh binary that records its argv} x strict checking {default on, disabled} x known-hosts file {has the server key, has another key for the host, empty, not given, only an unparsable line, another key plus an unparsable line} x authentication {password, key, both} x user {set, empty} x ssh config file {none, given} (x port {explicit, default} for the stand-in); every cell is one connection (Open, one command, Close) to an in-process SSH server on loopback with a fresh host key whose auth callbacks record what was offered; plus, per real transport, one known-hosts path rewritten between five connections of the same process (key, other key, empty, key, other key); distinct = distinct cells",
+		Rule:  "exhaustive configuration table: transport {standard (x/crypto/ssh), system with the real /usr/bin/ssh, system with a stand-in ssh binary that records its argv} x strict checking {default on, disabled} x known-hosts file {has the server key, has another key for the host, empty, not given, only an unparsable line, another key plus an unparsable line, a key of another algorithm} x authentication {password, key, both} x user {set, empty} x ssh config file {none, given} (x port {explicit, default} for the stand-in); every cell is one connection (Open, one command, Close; a refused Open is retried once on the same driver) to an in-process SSH server on loopback with a fresh host key whose auth callbacks record what was offered; plus, per real transport, one known-hosts path rewritten between five connections of the same process (key, other key, empty, key, other key); distinct = distinct cells",
 		Assumptions: []string{
 			"real sockets, crypto/ssh and OpenSSH cannot run under the controlled scheduler: configurations are enumerated, OS schedules are not",
 			"for the system transport the host key decision is OpenSSH's; scrapligo is judged on the argument list it builds and on the end-to-end outcome",
